@@ -270,10 +270,9 @@ def _is_family_accessor(name):
 
 
 def sentinel_rules(R, lib):
-    R.rule('R3-to', 'each to(Epoch|Unix)(Days|Seconds)/toSeconds accessor returns the documented sentinel under isError() '
-                    'before any arithmetic, or only delegates to a guarded accessor', floor=14)
+    R.rule('R3-to', 'each to(Epoch|Unix)(Days|Seconds)/toSeconds accessor returns the documented sentinel for every error value of its class (interpreted)', floor=14)
     R.rule('R3-for', 'each for(Epoch|Unix)(Seconds|Days)/forSeconds factory tests the sentinel before arithmetic on its argument', floor=9)
-    R.rule('R3-str', 'each for*String wrapper tests the length before calling the chainable parser', floor=4)
+    R.rule('R3-str', 'each for*String wrapper refuses every too-short prefix of a well-formed text and never reads beyond the terminator (interpreted)', floor=4)
     guarded = {}
     fam = []
     for cls in FAMILY_CLASSES:
@@ -283,47 +282,74 @@ def sentinel_rules(R, lib):
                 f = fs[0]
                 if _is_family_accessor(name) and not f.params and 'acetime_t' in (f.node.get('type', {}).get('qualType', '')):
                     fam.append(f)
+    # R3-to by interpretation (E-SEQ, typed): every accessor, called on every error value of its class that the checker can
+    # build (forError(), the all-zero object, a valid object with one component replaced by that component's error value),
+    # returns the documented sentinel - however the test is spelled and wherever it sits (in the accessor, in a helper,
+    # in the accessor it delegates to)
+    from .aeval import AEval, AObj, CxxModule, Raised, cxx_object, _copy_value
+    mod = CxxModule(lib, ['ace_time::'])
+    VALID = {'ace_time::LocalDate': {'mYearTiny': 1, 'mMonth': 2, 'mDay': 3}, 'ace_time::LocalTime': {'mHour': 4, 'mMinute': 5, 'mSecond': 6},
+             'ace_time::TimeOffset': {'mMinutes': 60}}
+
+    def call(qname, args, recv=None):
+        fs_ = [x for x in lib.fns(qname) if len(x.params) == len(args)]
+        if not fs_:
+            return None
+        return AEval(module=mod, typed=True, max_steps=20000).call_function(qname, list(args), recv=recv, chosen=CxxModule._Fn(fs_[0]))
+
+    def valid_object(cls):
+        o = cxx_object(lib, cls)
+        for n_, v_ in list(o.attrs.items()):
+            if isinstance(v_, AObj) and v_.cls:
+                o.attrs[n_] = valid_object(v_.cls.replace('const ', '').strip())
+        o.attrs.update(VALID.get(cls, {}))
+        return o
+
+    def error_objects(cls):
+        out = []
+        try:
+            e = call(cls + '::forError', [])
+            if isinstance(e, AObj):
+                out.append(('forError()', e))
+        except (Raised, AnalysisError):
+            pass
+        out.append(('all fields zero', cxx_object(lib, cls)))
+        v = valid_object(cls)
+        for n_, sub in v.attrs.items():
+            if isinstance(sub, AObj) and sub.cls and lib.fns(sub.cls.replace('const ', '').strip() + '::forError'):
+                try:
+                    e = call(sub.cls.replace('const ', '').strip() + '::forError', [])
+                except (Raised, AnalysisError):
+                    continue
+                w = _copy_value(v)
+                w.attrs[n_] = e
+                out.append(('a valid value whose %s is an error value' % n_, w))
+        return out
     for f in fam:
         name = f.name.split('::')[-1]
+        cls = f.name.rsplit('::', 1)[0]
         kind = 'Days' if name.endswith('Days') else 'Seconds'
         sent = SENTINELS[kind]
         if f.name == 'ace_time::LocalTime::toSeconds':
             sent = 'ace_time::LocalTime::kInvalidSeconds'
         sentv = lib.const(sent)
-        ok_paths = []
-
-        class TR(Rule):
-            def initial(self_):
-                return ['entry']
-
-            def refine(self_, cond, st, truth):
-                c = cond
-                while c.k in ('cast',) or (c.k == 'un' and c.a[0] == 'bool'):
-                    c = c.a[-1]
-                if c.k == 'call' and c.a[0].endswith('::isError'):
-                    rp = path_of(c.a[1]) if c.a[1] is not None else None
-                    if rp == 'this':
-                        return 'error' if truth else 'valid'
-                return st
-
-            def at_exit(self_, kind_, stmt, st, tr):
-                if kind_ != 'return':
-                    return
-                e = stmt.a[0]
-                while e.k == 'cast':
-                    e = e.a[2]
-                v = lib.global_value(e.a[0]) if e.k == 'var' else (e.a[0] if e.k == 'const' else None)
-                c = f.name
-                R.instance('R3-to', c, stmt.loc, 'return on %s path' % st)
-                if st == 'error':
-                    if v != sentv:
-                        R.violation('R3-to', c, stmt.loc, 'the error path returns %s, not the documented sentinel %s' % (show(e), sent), detail=list(tr))
-                elif st == 'entry':
-                    # unguarded: must be a pure delegation to an accessor of the same family and unit
-                    if not (e.k == 'call' and _is_family_accessor(e.a[0].split('::')[-1]) and e.a[0].split('::')[-1].endswith(kind)
-                            and not e.a[2] and _pure_receiver(e.a[1])):
-                        R.violation('R3-to', c, stmt.loc, 'returns %s without testing isError() first (and is not a plain delegation to a guarded accessor)' % show(e)[:120], detail=list(tr))
-        Engine(TR()).run(f.body)
+        n_err = 0
+        bad = None
+        for what, obj in error_objects(cls):
+            try:
+                if not call(cls + '::isError', [], recv=obj):
+                    continue
+                got = call(f.name, [], recv=obj)
+            except Raised as x_:
+                got = 'raises %s' % x_.what
+            n_err += 1
+            if got != sentv and bad is None:
+                bad = 'called on %s (isError() is true) the accessor returns %s, not the documented sentinel %s = %d' % (what, got, sent.split('::')[-1], sentv)
+        R.instance('R3-to', f.name, f.loc, '%d error values interpreted' % n_err)
+        if n_err == 0:
+            raise AnalysisError('%s: no error value of %s could be built' % (f.loc, cls))
+        if bad:
+            R.violation('R3-to', f.name, f.loc, bad)
     # factories
     for cls in FAMILY_CLASSES:
         for q, fs in lib.funcs.items():
@@ -384,64 +410,44 @@ def sentinel_rules(R, lib):
                          if e.k == 'bin' and e.a[0] in ('==', '!=') and any(path_of(x) == p0 for x in walk_expr(e) if x.k == 'var'))
             if not tested:
                 R.violation('R3-for', f.name, f.loc, 'the factory never compares its argument with the error sentinel')
-    # string wrappers
-    for q, fs in lib.funcs.items():
+    # string wrappers, interpreted (E-SEQ, typed): every prefix of a well-formed text that is shorter than the text is
+    # refused with an error value, and no prefix - nor the full text - makes the parser read beyond the terminator
+    from .aeval import Ref as _Ref, Text as _Text
+    FULL = {'LocalDate': '2019-03-10', 'LocalTime': '12:34:56', 'LocalDateTime': '2019-03-10T12:34:56', 'TimeOffset': '+05:30',
+            'OffsetDateTime': '2019-03-10T12:34:56+05:30'}
+    sintr = {'strlen': lambda ev, recv, args: args[0].box.length() if isinstance(args[0], _Ref) and isinstance(args[0].box, _Text) else len(args[0])}
+    for q, fs in sorted(lib.funcs.items()):
         if not q.startswith('ace_time::'):
             continue
         name = q.split('::')[-1]
-        if not re.match(r'^for\w*String$', name):
+        cls = q.split('::')[-2] if q.count('::') >= 2 else ''
+        if not re.match(r'^for\w*String$', name) or cls not in FULL:
             continue
         for f in fs:
-            if not f.params or 'const char *' != (f.params[0][1] or ''):
+            if len(f.params) != 1 or 'const char *' != (f.params[0][1] or ''):
                 continue
-            p0 = f.params[0][0]
-            calls_chain = [e for e in all_exprs(f.body) if e.k == 'call' and e.a[0].endswith('Chainable')]
-            if not calls_chain:
-                continue
-            # locals that hold strlen(argument): declared with it and never written again
-            written = set()
-            for s in walk_stmts(f.body):
-                if s.k == 'assign':
-                    written.add(path_of(s.a[0]))
-            len_locals = {s.a[0] for s in walk_stmts(f.body)
-                          if s.k == 'decl' and s.a[2] is not None and _is_strlen(_uncast(s.a[2]), p0)
-                          and (s.a[0],) not in written and s.a[0] not in written}
-
-            def is_len(e, p0=p0, len_locals=len_locals):
-                return _is_strlen(e, p0) or (e.k == 'var' and e.a[0] in len_locals)
-
-            class SR(Rule):
-                def initial(self_):
-                    return ['unchecked']
-
-                def refine(self_, cond, st, truth):
-                    c = _uncast(cond)
-                    if c.k == 'not':
-                        return self_.refine(c.a[0], st, not truth)
-                    if c.k == 'bin' and c.a[0] in ('<', '<=', '>', '>=', '!=', '=='):
-                        op, l, r = c.a[0], _uncast(c.a[1]), _uncast(c.a[2])
-                        if is_len(r) and not is_len(l):
-                            op = {'<': '>', '<=': '>=', '>': '<', '>=': '<=', '!=': '!=', '==': '=='}[op]
-                            l, r = r, l
-                        if is_len(l):
-                            long_enough = (op in ('<', '<=', '!=')) != truth
-                            return 'checked' if long_enough else 'short'
-                    return st
-
-                def event(self_, e, st, tr):
-                    if e.k == 'call' and e.a[0].endswith('Chainable'):
-                        R.instance('R3-str', f.name, e.loc)
-                        if st != 'checked':
-                            R.violation('R3-str', f.name, e.loc, 'the chainable parser is called on a string whose length was not tested on this path', detail=list(tr))
-                    return st
-
-                def at_exit(self_, kind_, stmt, st, tr):
-                    if kind_ == 'return' and st == 'short':
-                        e = stmt.a[0]
-                        R.instance('R3-str', f.name + ':short', stmt.loc)
-                        if not (e.k == 'call' and e.a[0].endswith('::forError')):
-                            R.violation('R3-str', f.name + ':short', stmt.loc, 'a too-short string does not produce forError()')
-            Engine(SR()).run(f.body)
+            full = FULL[cls]
+            bad_ = None
+            n_ = 0
+            for k in range(0, len(full) + 1):
+                txt = _Text(full[:k])
+                try:
+                    r = AEval(module=mod, intrinsics=sintr, typed=True, max_steps=20000).call_function(f.name, [_Ref(txt, 0)], chosen=CxxModule._Fn(f))
+                    err = call('ace_time::%s::isError' % cls, [], recv=r) if isinstance(r, AObj) else None
+                except IndexError:
+                    bad_ = bad_ or 'a string of %d characters (%r) makes the parser read beyond its terminator: the chainable parser is reached on a string whose length was not tested' % (k, full[:k])
+                    continue
+                except Raised as x_:
+                    bad_ = bad_ or 'a string of %d characters raises %s' % (k, x_.what)
+                    continue
+                n_ += 1
+                if k < len(full) and not err:
+                    bad_ = bad_ or 'a too-short string (%d characters, %r) does not produce forError()' % (k, full[:k])
+                if k == len(full) and err:
+                    bad_ = bad_ or 'the well-formed text %r is refused' % full
+            R.instance('R3-str', f.name, f.loc, '%d prefixes interpreted' % n_)
+            if bad_:
+                R.violation('R3-str', f.name, f.loc, bad_)
 
 
 def _uncast(e):
@@ -720,7 +726,8 @@ def error_return_rule(R, lib, f, want):
                 v = val
                 while v is not None and v.k in ('cast', 'ptrcast'):
                     v = v.a[-1]
-                nulls = (st[2] | {name}) if (v is not None and v.k == 'null') else (st[2] - {name})
+                is_null = v is not None and (v.k == 'null' or (v.k == 'var' and v.a[0] in st[2]))      # null, or a copy of a local that is null here
+                nulls = (st[2] | {name}) if is_null else (st[2] - {name})
                 st = (st[0], st[1], nulls)
             # remember the last value assigned to locals on the failed path
             if st[0] == 'failed' and s.k == 'assign' and s.a[0].k == 'var':
